@@ -27,7 +27,7 @@ use tokio::sync::mpsc;
 use crate::gen::{RunCfg, Shape, Strat};
 use crate::model::TestFn;
 
-pub const INTR: bool = cfg!(feature = "intr");
+pub use crate::violation::INTR;
 
 pub struct CountWaker(pub AtomicUsize);
 impl Wake for CountWaker {
